@@ -129,6 +129,7 @@ func (r *c17run) Step(ev explore.Event) []explore.Violation {
 	// what the operation needs: messages added per target mailbox, mailboxes added
 	needMsgs := map[string]int{}
 	needBoxes := 0
+	setBeyond := false
 	countOf := func(name string) (int, uint32) {
 		if mb := vb.Mbox(name); mb != nil {
 			return len(mb.Msgs), mb.UIDNext
@@ -155,6 +156,13 @@ func (r *c17run) Step(ev explore.Event) []explore.Violation {
 				uids := make([]uint32, len(d.Msgs))
 				n := len(resolveSet(f[1], len(d.Msgs), uids, false))
 				needMsgs[f[2]] = n
+				// a sequence number beyond the message count makes the command fail for that reason alone
+				for _, x := range strings.FieldsFunc(f[1], func(c rune) bool { return c == ':' || c == ',' }) {
+					var v int
+					if _, err := fmt.Sscanf(x, "%d", &v); err == nil && v > len(d.Msgs) {
+						setBeyond = true
+					}
+				}
 			}
 		case "CREATE":
 			name := f[1]
@@ -242,7 +250,14 @@ func (r *c17run) Step(ev explore.Event) []explore.Violation {
 			}
 		}
 		valid := len(needMsgs) > 0 || needBoxes > 0
-		if valid && fits && refused && !accepted && (kind == "APPEND" || kind == "append" || strings.HasPrefix(kind, "conn-")) {
+		// COPY / MOVE of at least one existing message into an existing mailbox have no other reason to be refused
+		copyMove := false
+		if k := strings.TrimPrefix(kind, "UID "); k == "COPY" || k == "MOVE" {
+			for _, n := range needMsgs {
+				copyMove = n > 0 && !setBeyond
+			}
+		}
+		if valid && fits && refused && !accepted && (kind == "APPEND" || kind == "append" || strings.HasPrefix(kind, "conn-") || copyMove) {
 			out = append(out, r.viol("fitting-refused", kind, fmt.Sprintf("%s fits the limits with a margin (state %s, limits mailboxes=%d messages=%d uid=%d) but was refused", ev, before, r.p.MaxMailboxes, r.p.MaxMessages, r.p.MaxUID)))
 		}
 	}
